@@ -125,6 +125,22 @@ func handleJSON(req *Req) *Resp {
 		want := docOfMatches(ms)
 		r["valid_utf8"] = allValidUTF8(any(want))
 		r["matches_memory"] = canon(cd) == canon(normalizeJSON(want))
+		// the same text as a file inside a directory argument written with a trailing slash: the file name
+		// (as the engine composes it) must be carried unchanged too
+		if len(ms) > 0 && len(runs) < 3 {
+			if dir, e := os.MkdirTemp("", "verif.json."); e == nil {
+				os.WriteFile(filepath.Join(dir, "a b%.txt"), []byte(toText(t)), 0o644)
+				fms, fp, _ := runFilesSafe(v, []string{dir + "/"}, engine.NOTHING)
+				if fp == "" {
+					fj, p1 := jsonSafe(fms.Json)
+					var fdoc any
+					if p1 != "" || json.Unmarshal([]byte(fj), &fdoc) != nil || canon(fdoc) != canon(normalizeJSON(docOfMatches(fms))) {
+						r["matches_memory"] = false
+					}
+				}
+				os.RemoveAll(dir)
+			}
+		}
 		r["doc"] = cd
 		r["n"] = len(ms)
 		// single-match renderings too
